@@ -309,6 +309,8 @@ const prelude = `(set-option :smt.mbqi true)
 (declare-fun eroot (Ref) Ref)
 (assert (forall ((r Ref) (k Int)) (! (= (eroot (fld r k)) (eroot r)) :pattern ((fld r k)))))
 (assert (forall ((r Ref) (i Int)) (! (= (eroot (elem r i)) (elem r i)) :pattern ((elem r i)))))
+(assert (forall ((r Ref)) (! (=> (= (rkind r) 2) (= r (elem (elem_base r) (elem_idx r)))) :pattern ((elem_base r)))))
+(assert (forall ((r Ref)) (! (=> (= (rkind r) 1) (= r (fld (fld_base r) (fld_idx r)))) :pattern ((fld_base r)))))
 (assert (= (rkind null) 0))
 (assert (= (root null) null))
 (declare-datatypes ((Slice 0)) (((mk_slice (sarr Ref) (soff Int) (slen Int) (scap Int)))))
@@ -321,6 +323,7 @@ const prelude = `(set-option :smt.mbqi true)
 (define-fun nil_fn () Fn (mk_fn 0 null))
 (declare-fun iscell (Ref) Bool)
 (declare-fun atype (Ref) Int)
+(declare-fun ptype (Ref) Int)
 (declare-fun implements (Int Int) Bool)
 (declare-fun bv_and (Int Int) Int)
 (declare-fun bv_or (Int Int) Int)
